@@ -8,6 +8,7 @@ import (
 	"fmt"
 	"io"
 	"net"
+	"os"
 	"strings"
 	"sync"
 	"sync/atomic"
@@ -18,6 +19,12 @@ import (
 
 // pairWrapped is pair() with a transport wrapper between the TCP socket and the tls.Conn of each end.
 func pairWrapped(ver int, wrap func(si int, c net.Conn) net.Conn) (cli, srv *tls.Conn, err error) {
+	ccfg, scfg := configs(ver)
+	return pairCfg(ccfg, scfg, wrap)
+}
+
+// pairCfg: a loopback TCP pair under a client and a server Conn with the given configurations.
+func pairCfg(ccfg, scfg *tls.Config, wrap func(si int, c net.Conn) net.Conn) (cli, srv *tls.Conn, err error) {
 	ln, err := net.Listen("tcp", "127.0.0.1:0")
 	if err != nil {
 		return nil, nil, err
@@ -32,7 +39,7 @@ func pairWrapped(ver int, wrap func(si int, c net.Conn) net.Conn) (cli, srv *tls
 		c, err := ln.Accept()
 		ch <- acc{c, err}
 	}()
-	cc, err := net.DialTimeout("tcp", ln.Addr().String(), 10*time.Second)
+	cc, err := net.DialTimeout("tcp", ln.Addr().String(), 10*time.Minute)
 	if err != nil {
 		return nil, nil, err
 	}
@@ -41,7 +48,6 @@ func pairWrapped(ver int, wrap func(si int, c net.Conn) net.Conn) (cli, srv *tls
 		cc.Close()
 		return nil, nil, a.err
 	}
-	ccfg, scfg := configs(ver)
 	return tls.Client(wrap(0, cc), ccfg), tls.Server(wrap(1, a.c), scfg), nil
 }
 
@@ -57,13 +63,19 @@ type scen struct {
 	failed  chan struct{} // closed by the first report
 	fonce   sync.Once
 	stop    chan struct{} // closed when the final shutdown starts
+	t0      time.Time
+	cutc    chan struct{} // closed by cut(): proceed to the final shutdown now
+	cutOnce sync.Once
 }
+
+// cut ends a scenario that is not expected to end by itself (see finishOpts, mustEnd == false).
+func (sc *scen) cut() { sc.cutOnce.Do(func() { close(sc.cutc) }) }
 
 func newScen(r *rng, cli, srv *tls.Conn) *scen {
 	mk := func(name string, c *tls.Conn) *side {
 		return &side{name: name, conn: c, acked: map[byte]uint32{}, started: map[byte]uint32{}, rejected: map[byte]bool{}}
 	}
-	return &scen{r: r, sides: []*side{mk("client", cli), mk("server", srv)}, failed: make(chan struct{}), stop: make(chan struct{})}
+	return &scen{r: r, sides: []*side{mk("client", cli), mk("server", srv)}, failed: make(chan struct{}), stop: make(chan struct{}), cutc: make(chan struct{}), t0: time.Now()}
 }
 
 func (sc *scen) spawn(name string, f func(w *worker)) {
@@ -75,6 +87,7 @@ func (sc *scen) spawn(name string, f func(w *worker)) {
 	sc.wg.Add(1)
 	go func() {
 		defer sc.wg.Done()
+		defer bump()
 		defer w.done.Store(true)
 		f(w)
 	}()
@@ -102,12 +115,22 @@ func (sc *scen) reportReader(err error, s string) {
 }
 
 func (sc *scen) reportPri(pri int, s string) {
+	// every report in order of occurrence (the runner's stderr is kept in the failure message of the harness)
+	fmt.Fprintf(os.Stderr, "REPORT +%dms pri=%d %s\n", time.Since(sc.t0).Milliseconds(), pri, s)
 	sc.violMu.Lock()
 	if sc.viol == "" || pri < sc.violPri {
 		sc.viol, sc.violPri = s, pri
 	}
 	sc.violMu.Unlock()
 	sc.fonce.Do(func() { close(sc.failed) })
+}
+
+// runningNow: the calls that have not returned (safe while workers are still being spawned).
+func (sc *scen) runningNow() string {
+	sc.wmu.Lock()
+	ws := append([]*worker(nil), sc.workers...)
+	sc.wmu.Unlock()
+	return running(ws)
 }
 
 func (sc *scen) violation() string {
@@ -156,14 +179,33 @@ func (sc *scen) sleep(d time.Duration) bool {
 // finish waits for the natural end of the scenario (all workers returned), a failure or `natural`, then calls
 // Close on both ends and checks that everything has returned `grace` later. false = watchdog fired.
 func (sc *scen) finish(natural, grace time.Duration) bool {
+	return sc.finishOpts(natural, grace, true)
+}
+
+// finishOpts: with mustEnd == false the scenario is one that is cut short by the final Close (Close, expired
+// deadlines or a failed renegotiation have struck): reaching `natural` is then not a finding.
+func (sc *scen) finishOpts(natural, grace time.Duration, mustEnd bool) bool {
 	allDone := make(chan struct{})
 	go func() { sc.wg.Wait(); close(allDone) }()
+	ended := make(chan struct{}) // ends the load timers
+	defer close(ended)
+	// mustEnd: a verdict, in load-corrected time and only while nothing makes progress (load.go);
+	// otherwise pacing in real time
+	var limit <-chan struct{}
+	var pace <-chan time.Time
+	if mustEnd {
+		limit = LoadTimer(natural, 10*time.Second, ended)
+	} else {
+		pace = time.After(natural)
+	}
 	select {
 	case <-allDone:
 	case <-sc.failed:
 		time.Sleep(20 * time.Millisecond) // let the root cause be reported as well (see report)
-	case <-time.After(natural):
-		sc.report("graceful scenario did not reach EOF on both sides within " + natural.String() + ": " + running(sc.workers))
+	case <-sc.cutc:
+	case <-pace:
+	case <-limit:
+		sc.report(fmt.Sprintf("graceful scenario did not reach EOF on both sides within %v (load-corrected, load factor %.1f): %s", natural, LoadFactor(), sc.runningNow()))
 	}
 	close(sc.stop)
 	var closers sync.WaitGroup
@@ -180,6 +222,7 @@ func (sc *scen) finish(natural, grace time.Duration) bool {
 			s.conn.Close()
 			s.closeReturned.Store(true)
 			w.done.Store(true)
+			bump()
 		}()
 	}
 	finished := make(chan struct{})
@@ -187,8 +230,8 @@ func (sc *scen) finish(natural, grace time.Duration) bool {
 	select {
 	case <-finished:
 		return true
-	case <-time.After(grace):
-		sc.report("deadlock: " + grace.String() + " after Close() was called on both ends these calls had still not returned: " + running(sc.workers))
+	case <-LoadTimer(grace, 10*time.Second, ended):
+		sc.report(fmt.Sprintf("deadlock: %v (load-corrected, load factor %.1f) after Close() was called on both ends these calls had still not returned: %s", grace, LoadFactor(), sc.runningNow()))
 		for _, s := range sc.sides {
 			s.conn.NetConn().Close()
 		}
